@@ -138,9 +138,9 @@ CLAIMED = {
         "non-blank character in order (only TAB/LF/CR between tokens and spaces inside argument lists lie outside "
         "tokens), for every input string. The theorems are about the model of the front end; the model is tied to the code in "
         "two ways: (1) C10Grammar.lean pins, as theorems re-checked every run over tables the extractor copies from /repo, the "
-        "statements of TagTemplateLexer.g4 / TagTemplateParser.g4 (layout and comments removed) and the serialised automata and "
-        "rule/mode names of the generated TagTemplateLexer.py / TagTemplateParser.py that actually run - any edit of a rule or "
-        "regeneration of a recogniser breaks an obligation and starts the failing-input search; (2) the correspondence: 30 000 "
+        "serialised automata and rule/mode names of the generated TagTemplateLexer.py / TagTemplateParser.py that actually run "
+        "(the .g4 statements are extracted into the evidence too) - any regeneration of a recogniser from a changed grammar "
+        "breaks an obligation and starts the failing-input search; (2) the correspondence: 30 000 "
         "generated trees per run are printed by the model's printer and by an independent Python printer, parsed by "
         "the real parser and by the model, and compared with the tree; accepted strings are re-lexed with a collecting "
         "listener (nothing dropped); CLI runs check that text+argument reach the generated name verbatim.",
@@ -157,8 +157,8 @@ CLAIMED = {
         "tree whose tag has exactly x as context. For arbitrary X and argument lists (C11Tree.lean): pipe_tokens (the parser "
         "turns the tokens of X|A|B.. into nest X [A, B..]; parsePipes by induction over the tag list), lex_piped (the "
         "lexer cuts the piped spelling into those tokens) and pipe_eq_nested_tree (both spellings, printed in any two "
-        "styles, parse to the same tree nest X tags), built on C10's tree round trip. The grammar statements and generated "
-        "automata the front-end model was written against are pinned by theorems over tables re-extracted from /repo each run "
+        "styles, parse to the same tree nest X tags), built on C10's tree round trip. The generated "
+        "lexer/parser automata the front-end model was written against are pinned by theorems over tables re-extracted from /repo each run "
         "(C11Grammar.lean); beyond that the tie of the model front end to the real one is by correspondence: 20 000 generated (X, 1-5 tags, arguments) pairs per run are printed in both "
         "spellings, at top level and inside a context, parsed by the real parser and by the model (equal trees), and "
         "rendered through the real compiler with the built-in text tags (equal names).",
@@ -282,7 +282,7 @@ CLAIMED = {
         "set ends in an error; TemplateSyntaxError/TemplateSemanticError exit 3, TemplateEvaluationError exits 4 over "
         "the except order extracted from cli.py; in the phase model of main() every compile error and every filter/sort "
         "evaluation failure returns before the renamer is called at all (calls = [], renamer state unchanged) and the "
-        "working directory is restored. The grammar statements and the generated automata the model was written against are pinned by theorems over tables "
+        "working directory is restored. The generated lexer/parser automata the model was written against are pinned by theorems over tables "
         "re-extracted from /repo each run (C09Grammar.lean). Partial: that the real ANTLR parser/binder reject exactly the same templates is "
         "the correspondence (all strings over a 9-symbol alphabet up to length 5, mutated valid templates, random "
         "strings; name/filter/sort/alias positions through the CLI, including expressions that fail only for later "
